@@ -12,6 +12,7 @@ which runs the same check on the same registered keys — accepts it.  The end-t
 -/
 import Tough.Model.EditorSign
 import Tough.Proofs.Sig
+import Tough.Proofs.ClientNames
 namespace Tough.C10
 open Tough.Sig Tough.EditorSign
 
@@ -119,6 +120,28 @@ sign and publish a repository that no client loads -/
 theorem old_add_role_unchecked_witness :
     addRoleAccepted false [5, 6] ⟨[5, 6], 2⟩ 77 (holderSigs 77 [5]) = true ∧
     verify [5, 6] ⟨[5, 6], 2⟩ 77 (holderSigs 77 [5]) = false := by decide
+
+theorem namesDistinct_iff (l : List Nat) : namesDistinct l = true ↔ l.Nodup := by
+  induction l with
+  | nil => simp [namesDistinct]
+  | cons a rest ih =>
+    simp only [namesDistinct, Bool.and_eq_true, Bool.not_eq_true', List.nodup_cons, ih]
+    constructor
+    · rintro ⟨h1, h2⟩; exact ⟨by simpa [List.contains_iff_mem] using h1, h2⟩
+    · rintro ⟨h1, h2⟩; exact ⟨by simpa [List.contains_iff_mem] using h1, h2⟩
+
+/-- **C10.d (`sign` refuses a role name used twice, after the repair).** No client ever loads a
+delegation tree that holds a role name twice (`cycle_names_nodup`: `load_delegations` fetches each name
+at most once per update) — whatever the repository serves.  A repository whose tree the editor's check
+`namesDistinct` rejects could therefore never be "loaded back unchanged"; the editor must refuse it, and
+with the check every tree it signs meets this necessary condition. -/
+theorem duplicate_role_names_never_load (cfg : Client.Config) (srv : Client.Server) (shipped : Option Client.Root)
+    (st st' : Client.St) (v : Client.View) (h : Client.cycle cfg srv shipped st = (.ok v, st')) :
+    namesDistinct (Cache.tgtRoleNames v.tgt) = true :=
+  (namesDistinct_iff _).mpr (Client.cycle_names_nodup h)
+
+/-- before the repair the editor signed the tree `targets → [r0, r0]` -/
+example : namesDistinct [0, 0] = false ∧ namesDistinct [0, 1, 2] = true := by decide
 
 /-- the hypotheses of `signRole_verifies` are satisfiable with a threshold above one -/
 example : ∃ sigs, signRole false [1, 2, 3] [3, 9, 1, 1] ⟨[1, 3, 4], 2⟩ 7 = some sigs := ⟨_, rfl⟩
